@@ -79,7 +79,7 @@ MM = {
         '@C04| applied(old(board), final(board), text_mv(player_move, old(board).to_move))',
         '@C04,C05| key_ok(final(board), zobrist_hasher)',
         # induction step over the move list: the position held after the step is again a legal position
-        '@C04| legal_position(final(board))',
+        '@C04| legal_position(final(board)) && is_successor(old(board), final(board))',
     ],
     'body_start': """let ghost b0 = *board; let ghost m = text_mv(player_move, board.to_move);
     proof {
@@ -144,6 +144,7 @@ MM = {
             let t = choose|t: CastlingType| right_color(t) == b0.to_move && #[trigger] may_castle(&b0, t) && m == castle_mv(t);
             assert(castle_pos_after(&b0, s, t));
             lemma_castle_closure(&b0, s, t);
+            assert(is_successor(&b0, s));
         } else {
             let ab = after_board(&b0, fr, fc, tr, tc, m.2);
             assert forall|a: int, b: int| 0 <= a < 12 && 0 <= b < 12 implies #[trigger] s.board[a][b] == ab[a][b] by {}
@@ -153,6 +154,8 @@ MM = {
             assert(s.board =~= ab);
             assert(pos_after(&b0, s, fr, fc, tr, tc, m.2));
             lemma_step_closure(&b0, s, fr, fc, end_pair, m.2, MoveGenerationMode::AllMoves);
+            assert(pos_after(&b0, s, fr, fc, end_pair.0 as int, end_pair.1 as int, m.2) && succ_mode(MoveGenerationMode::AllMoves));
+            assert(is_successor(&b0, s));
         }
     }""" % {'FRM': FRM},
     'expect': {'loops': []},
